@@ -254,6 +254,102 @@ impl<R: RTraits> TileManager<R> {
     }
 }
 
+/// Read-only snapshot of the builder's internal store (verification hook, feature `verif`).
+#[cfg(feature = "verif")]
+#[derive(Debug, Clone, Default, PartialEq, Eq)]
+pub struct VerifStoreReport {
+    /// Number of tile ids known to the store
+    pub ids_total: usize,
+    /// Number of tile ids whose content is held in memory
+    pub ids_in_memory: usize,
+    /// Number of tile ids whose content lives in the backing reader
+    pub ids_offset_backed: usize,
+    /// Number of contents held in memory
+    pub stored_contents: usize,
+    /// Sum of the lengths of all contents held in memory
+    pub stored_bytes: usize,
+    /// Number of reference sets
+    pub reference_sets: usize,
+    /// Sum of the sizes of all reference sets
+    pub reference_total: usize,
+    /// `(content hash, content length, number of referring ids)` per stored content, sorted
+    pub contents: Vec<(u64, usize, usize)>,
+    /// Internal disagreements between the three maps (empty if consistent)
+    pub disagreements: Vec<String>,
+}
+
+#[cfg(feature = "verif")]
+impl<R> TileManager<R> {
+    /// Walks the three internal maps and reports their sizes and any disagreement between them.
+    pub fn verif_store_report(&self) -> VerifStoreReport {
+        let mut report = VerifStoreReport {
+            ids_total: self.tile_by_id.len(),
+            stored_contents: self.data_by_hash.len(),
+            stored_bytes: self.data_by_hash.values().map(Vec::len).sum(),
+            reference_sets: self.ids_by_hash.len(),
+            reference_total: self.ids_by_hash.values().map(HashSet::len).sum(),
+            ..VerifStoreReport::default()
+        };
+
+        for (id, tile) in &self.tile_by_id {
+            match tile {
+                TileManagerTile::Hash(hash) => {
+                    report.ids_in_memory += 1;
+                    if !self.data_by_hash.contains_key(hash) {
+                        report
+                            .disagreements
+                            .push(format!("id {id} refers to a content that is not stored"));
+                    }
+                    if !self.ids_by_hash.get(hash).is_some_and(|s| s.contains(id)) {
+                        report
+                            .disagreements
+                            .push(format!("id {id} is missing from its reference set"));
+                    }
+                }
+                TileManagerTile::OffsetLength(..) => report.ids_offset_backed += 1,
+            }
+        }
+
+        for (hash, ids) in &self.ids_by_hash {
+            if ids.is_empty() {
+                report
+                    .disagreements
+                    .push(format!("reference set {hash:#x} is empty"));
+            }
+            for id in ids {
+                let bound_here = matches!(
+                    self.tile_by_id.get(id),
+                    Some(TileManagerTile::Hash(h)) if h == hash
+                );
+                if !bound_here {
+                    report.disagreements.push(format!(
+                        "reference set {hash:#x} names id {id} which is bound elsewhere"
+                    ));
+                }
+            }
+        }
+
+        for (hash, data) in &self.data_by_hash {
+            let refs = self.ids_by_hash.get(hash).map_or(0, HashSet::len);
+            if refs == 0 {
+                report
+                    .disagreements
+                    .push(format!("stored content {hash:#x} has no referrer"));
+            }
+            if Self::calculate_hash(data) != *hash {
+                report
+                    .disagreements
+                    .push(format!("stored content {hash:#x} is filed under a foreign hash"));
+            }
+            report.contents.push((*hash, data.len(), refs));
+        }
+        report.contents.sort_unstable();
+        report.disagreements.sort();
+
+        report
+    }
+}
+
 impl Default for TileManager<Cursor<&[u8]>> {
     fn default() -> Self {
         Self::new(None)
